@@ -16,7 +16,7 @@ RULE = ("case = (source path/stream, index none/matching/mismatching/index-only,
 def run(tier):
     chk = Check("C20", tier)
     ov = {"MaxHist": 4 if tier == "quick" else 6}
-    nvar = 2 if tier == "quick" else 6
+    nvar = 3 if tier == "quick" else 6
     for v in range(nvar):
         run_config(chk, "TdmsLifecycle", "TdmsLifecycle.cfg", ov,
                    lambda rec, i, v=v: {"rec": rec, "seed": chk.seed, "variant": v},
